@@ -28,7 +28,7 @@ import numpy as np
 
 from harness.core import PropertyCheck, TieBroken
 from harness.util import Snapshot, close, cmp_rats, errname, fr, frs, parse_rats, plist
-from harness.props import c16_spline, c16_tables, c16_views
+from harness.props import c16_kcases, c16_kern, c16_spline, c16_tables, c16_views
 
 REPO = os.environ.get("NIPY_VERIF_REPO", "/repo")
 VERIF = os.path.dirname(os.path.dirname(os.path.dirname(os.path.abspath(__file__))))
@@ -277,7 +277,8 @@ class C16(PropertyCheck):
     id = "C16"
     title = "Compiled numeric kernels equal their NumPy/SciPy definitions"
     lean_modules = ["NipyVerif.Props.C16", "NipyVerif.Props.C16B", "NipyVerif.Props.C16S", "NipyVerif.Props.C16P",
-                    "NipyVerif.Props.C16L", "NipyVerif.Props.C16Q"]
+                    "NipyVerif.Props.C16L", "NipyVerif.Props.C16Q", "NipyVerif.Props.C16K",
+                    "NipyVerif.Props.C16G", "NipyVerif.Props.C16I"]
     driver = "Drivers/C16.lean"
     rule = ("cases are (routine, shape 1..4-D, memory layout in {C, Fortran, stepped, reversed, permuted-axes, "
             "offset window}, dtype, axis, ratio / BLAS flags / boundary modes, dyadic data) from a seeded PRNG; the "
@@ -286,7 +287,11 @@ class C16(PropertyCheck):
             "arrays of every datatype pair with steps, reversed and permuted axes) and compare the whole parent; "
             "non-trivial = at least 2 elements along the processed axis (quantile, iterator), a non-square or "
             "non-contiguous operand (BLAS), an axis of length >= 2 (spline), n >= 3 (permutations); distinct by "
-            "full JSON of the case")
+            "full JSON of the case; the `kern` kinds call the static helpers of cubic_spline.c (through a shim that "
+            "#includes the file) on every threshold of the three boundary modes, coordinates several periods away and "
+            "|x| up to 1e300, and prng_double from seeded and arbitrary states incl. 0, 1, m-1; the `permbig` kinds give "
+            "fff_permutation / fff_combination n up to 20, k-of-n up to 60 with C(n,k) > 2^32 and seeds over the whole "
+            "64-bit range (j and j + 2^32, j + 2^63, n! - 1, n! mod 2^64, 2^64 - 1)")
     assumptions = [
         "IEEE-754: the C kernels are compared with the exact-rational model to 1e-12 relative (exactly on dyadic data)",
         "lapack_lite reference BLAS/LAPACK (f2c) implement the Fortran semantics written as gemmF/symmF/trmmF/"
@@ -302,13 +307,27 @@ class C16(PropertyCheck):
         "numpy.linalg (1e-7 / 1e-9 relative) and with their recurrences",
         "integer stores of fff_array (FFF_ROUND): the oracle accepts either nearest integer at a tie; the rule as "
         "written (ties away from zero) is pinned by the model on every case",
+        "translated C expressions (Gen/C16Kern.lean): C `int` / `size_t` arithmetic is read over the integers (no "
+        "overflow: coordinates pass the range test of _mirror_grid_neighbors before the (int) conversion, the prng state "
+        "is proved to stay in [0, m)), `unsigned int ddim` as a non-negative integer, `double` / `long double` as exact "
+        "rationals; `size >> 1` is written `size / 2`, `FFF_IS_ODD` as `size % 2 = 1`; macros are expanded textually",
+        "libc srand/rand (prng_seed) is not modelled: the seeded state is read from the re-compiled C",
         "installed extension modules are the build of this tree's .pyx files (Cython is unavailable in the sandbox); "
         "the C of the working tree is observed through gcc-rebuilt libraries and a replica of the pyx glue; "
         "histogram.pyx is observed through the installed build only",
     ]
-    level_note = ("partial: the fff_array iterator's C-order (per-case correspondence + oracle), permutation/combination "
-                  "distinctness beyond validity (exhaustive oracle; C17), the n-D separability of the spline theorems "
-                  "(1-D proved, n-D decided exactly per case), special functions and LAPACK numerics are not proved")
+    level_note = ("partial: the n-D separability of the spline theorems (1-D proved for every signal and mode; n-D: the "
+                  "driver decides exactly per case that the per-axis synthesis of the coefficients returns 6^d times the "
+                  "samples - commuting the line operators over the flat-array representation is not proved); gamln / psi "
+                  "(transcendental, no exact model: compared with scipy.special and their recurrences) and the numerics "
+                  "inside lapack_lite (f2c reference code, taken as the Fortran semantics of the model; factorisations "
+                  "certified by multiplication on the real code) are not proved; the .pyx glue is observed through the "
+                  "installed build and a replica, not modelled. Proved since the last round: the fff_array iterator "
+                  "visits in C order for every ndim <= 4 / stride / skipped axis (C16I); permutations and combinations "
+                  "are valid and distinct for distinct seeds below n! / C(n,k) (C16G, carried over from the C17 model "
+                  "proved equal to the C16 model); the model equals the expressions regenerated from the C text of "
+                  "cubic_spline.c, quantile.c, fff_base.h, fff_vector.c, wichmann_prng.c (C16K: *_from_source), "
+                  "fff_vector_sum/ssd/sad/median as written equal their definitions")
     finding_keys = {
         "vector-div-multiplies": "labs.bindings.linalg.vector_div(x, y) returns x*y (linalg.pyx calls fff_vector_mul)",
         "array-extrema-first-max": "fff_array_extrema leaves max = -inf when the first element visited is the maximum "
@@ -324,13 +343,13 @@ class C16(PropertyCheck):
     def translators(self):
         """constants of cubic_spline.c and the flag table of fff_blas.c, regenerated from the source text"""
         src, _ = c16_tables.lean_source(TieBroken)
-        return [("NipyVerif/Gen/C16Tables.lean", src)]
+        return [("NipyVerif/Gen/C16Tables.lean", src)] + c16_kern.translate(REPO, TieBroken)
 
     # ------------------------------------------------------------------
     def generate(self, rng, tier):
         # compile the C of the working tree once, in the parent, so that workers find the cached libraries
         from harness import cshim
-        fffpy(); cshim.build("quantile"); cshim.build("registration")
+        fffpy(); cshim.build("quantile"); cshim.build("registration"); c16_kcases.build()
         q = tier == "quick"
         n = dict(quantile=260, iter=120, blas1=120, blas3=420, vecops=120, hist=60, spline=220,
                  perm=50, specfun=40, lapack=50) if q else \
@@ -413,6 +432,23 @@ class C16(PropertyCheck):
                           "K": rng.choice([[], [1], [3], [2, 2]]), "layout": rng.choice(["C", "F", "offset", "transposed"]),
                           "seed": S()})
         cases += c16_views.generate(rng, dict(vvec=60, vmat=120, varr=120, vlap=60) if q else dict(vvec=1500, vmat=3000, varr=3000, vlap=1200))
+        # the statics of cubic_spline.c and prng_double against the expressions regenerated from the C text
+        cases += c16_kcases.gen(rng, 60 if q else 900)
+        # fff_permutation / fff_combination over the whole range of the 64-bit seed: n up to 20 (13! > 2^32), k-of-n with
+        # C(n,k) > 2^32, seeds in [2^32, n!) and pairs j / j + 2^32, j + 2^63, the ends of the enumeration range
+        for _ in range(40 if q else 500):
+            nn = rng.choice([13, 14, 15, 16, 18, 20, 20, rng.randrange(2, 13)])
+            lim = min(math.factorial(nn), 1 << 64)
+            j = rng.randrange(0, 1 << 32)
+            mg = [j, j + (1 << 32), rng.randrange(0, lim), lim - 1, rng.randrange(1 << 32, 1 << 64), (1 << 64) - 1,
+                  j + (1 << 63), rng.randrange(0, 1 << 40), lim % (1 << 64), rng.randrange(1, 1 << 31) << 32]
+            cn = rng.choice([35, 36, 38, 40, 44, 50, 60, rng.randrange(2, 35)])
+            ck = max(1, min(cn, cn // 2 + rng.choice([-3, -1, 0, 0, 1, 2])))
+            cl = math.comb(cn, ck)
+            cm = [j, j + (1 << 32), rng.randrange(0, cl), cl - 1, cl % (1 << 64), rng.randrange(1 << 32, 1 << 64),
+                  (1 << 64) - 1, rng.randrange(1, 1 << 31) << 32]
+            cases.append({"kind": "permbig", "n": nn, "magics": rng.sample(mg, 5) + mg[:2],
+                          "cn": cn, "ck": ck, "cmagics": rng.sample(cm, 4) + cm[:2]})
         if not q:
             # exhaustive small domain named in the design: arrays of length <= 7 over {0,1,2}
             for L in range(1, 8):
@@ -528,6 +564,9 @@ class C16(PropertyCheck):
                 if Fraction(float(np.float64(r) * (n if not interp else n - 1))) == exact:
                     lines.append(f"quantile {fr(r)} {int(interp)} {plist(before)}")
                     impl.append(("q", v))
+                    # the same front end assembled from the expressions regenerated from quantile.c
+                    lines.append(f"kquant {fr(r)} {int(interp)} {plist(before)}")
+                    impl.append(("q", v))
                     # the front end over the literal selection loops (_pth_element / _pth_interval): value and
                     # the rearranged fibre the C leaves behind
                     lines.append(f"qlit {fr(r)} {int(interp)} {plist(before)}")
@@ -543,6 +582,9 @@ class C16(PropertyCheck):
         if r in (0.0, 1.0):
             tags.append("ratio-edge")
         return self._res(lines, impl, fail, n >= 2, tags, mut and "_quantile:X")
+
+    def _kern(self, c):
+        return c16_kcases.run(self, c)
 
     def _views(self, c):
         return c16_views.run(self, c)
@@ -673,6 +715,54 @@ class C16(PropertyCheck):
                 if not ok and fail is None:
                     fail = (f"{name}: blas_{k}(x={xf.tolist()} [{c['lx']}, strides {x.strides}], y={yf.tolist()} "
                             f"[{c['ly']}, strides {y.strides}], alpha={al}) = {g}, definition gives {w}")
+        # Givens rotations: wrappers that nothing in Python reaches (fff_blas_drotg / drotm / drotmg), on the rebuilt C,
+        # against the definitions of the Level-1 BLAS specification; drotm on strided views
+        PD = C.POINTER(C.c_double)
+        lib.fff_blas_drotg.argtypes = [PD] * 4
+        lib.fff_blas_drotm.argtypes = [C.POINTER(FVec), C.POINTER(FVec), PD]
+        lib.fff_blas_drotmg.argtypes = [PD, PD, PD, C.c_double, PD]
+        a0, b0 = float(xf[0]), float(yf[0])
+        ga, gb, gc, gs = C.c_double(a0), C.c_double(b0), C.c_double(0), C.c_double(0)
+        lib.fff_blas_drotg(C.byref(ga), C.byref(gb), C.byref(gc), C.byref(gs))
+        sc = max(1.0, abs(a0), abs(b0))
+        if fail is None and ((a0 or b0) and abs(gc.value ** 2 + gs.value ** 2 - 1) > 1e-12
+                             or abs(gc.value * a0 + gs.value * b0 - ga.value) > 1e-12 * sc
+                             or abs(-gs.value * a0 + gc.value * b0) > 1e-12 * sc
+                             or abs(abs(ga.value) - math.hypot(a0, b0)) > 1e-12 * sc):
+            fail = (f"fff_blas_drotg(a={a0}, b={b0}) -> r={ga.value}, c={gc.value}, s={gs.value}: not the Givens rotation "
+                    f"(c a + s b = r, -s a + c b = 0, c^2 + s^2 = 1)")
+        flag = float(rs.choice([-1.0, 0.0, 1.0, -2.0]))
+        h = [float(t) for t in rs.randint(-6, 7, 4) / 2.0]
+        H = {-1.0: [[h[0], h[2]], [h[1], h[3]]], 0.0: [[1.0, h[2]], [h[1], 1.0]], 1.0: [[h[0], 1.0], [-1.0, h[3]]],
+             -2.0: [[1.0, 0.0], [0.0, 1.0]]}[flag]
+        px, py = np.zeros(2 * n + 1), np.zeros(3 * n + 2)
+        xs, ys = px[1::2], py[2::3]
+        xs[:] = xf; ys[:] = yf
+        P = (C.c_double * 5)(flag, *h)
+        vx = lib.fff_vector_fromPyArray(xs); vy = lib.fff_vector_fromPyArray(ys)
+        lib.fff_blas_drotm(vx, vy, P)
+        lib.fff_vector_delete(vx); lib.fff_vector_delete(vy)
+        wx, wy = H[0][0] * xf + H[0][1] * yf, H[1][0] * xf + H[1][1] * yf
+        if fail is None and not (np.array_equal(xs, wx) and np.array_equal(ys, wy) and not px[0::2].any()
+                                 and not py[0::3].any() and not py[1::3].any()):
+            fail = (f"fff_blas_drotm(x={xf.tolist()} [stride 2], y={yf.tolist()} [stride 3], P={[flag] + h}) gives "
+                    f"x={xs.tolist()}, y={ys.tolist()} (gaps of the parents: {px[0::2].tolist()}, {py[0::3].tolist()}); "
+                    f"H [x; y] with H={H} is x={wx.tolist()}, y={wy.tolist()}")
+        d1, d2 = float(rs.choice([0.5, 1.0, 2.0, 4.0, 0.25])), float(rs.choice([0.5, 1.0, 2.0, 3.0]))
+        x1, y1 = float(rs.choice([1.0, -2.0, 0.5, 3.0, 4.0])), float(rs.choice([1.0, -1.5, 0.25, 2.0, 0.0, 8.0]))
+        cd1, cd2, cx1 = C.c_double(d1), C.c_double(d2), C.c_double(x1)
+        P = (C.c_double * 5)(9.0, 9.0, 9.0, 9.0, 9.0)
+        lib.fff_blas_drotmg(C.byref(cd1), C.byref(cd2), C.byref(cx1), y1, P)
+        fl, q = P[0], list(P)[1:]
+        Hg = {-1.0: [[q[0], q[2]], [q[1], q[3]]], 0.0: [[1.0, q[2]], [q[1], 1.0]], 1.0: [[q[0], 1.0], [-1.0, q[3]]],
+              -2.0: [[1.0, 0.0], [0.0, 1.0]]}.get(fl)
+        e0 = d1 * x1 * x1 + d2 * y1 * y1
+        if fail is None and (Hg is None or abs(Hg[1][0] * x1 + Hg[1][1] * y1) > 1e-12 * max(1.0, abs(x1), abs(y1))
+                             or abs(Hg[0][0] * x1 + Hg[0][1] * y1 - cx1.value) > 1e-12 * max(1.0, abs(cx1.value))
+                             or abs(cd1.value * cx1.value ** 2 - e0) > 1e-12 * max(1.0, e0)):
+            fail = (f"fff_blas_drotmg(d1={d1}, d2={d2}, x1={x1}, y1={y1}) -> d1={cd1.value}, d2={cd2.value}, x1={cx1.value}, "
+                    f"P={list(P)}: H does not map (x1, y1) to (x1', 0) with d1' x1'^2 = d1 x1^2 + d2 y1^2")
+        tags.append(f"rotm-flag={int(flag)}")
         return self._res([], [], fail, n >= 2, tags, mut and "blas1:x/y")
 
     # ---- BLAS level 2/3 -----------------------------------------------------------
@@ -830,7 +920,24 @@ class C16(PropertyCheck):
         mm = C.c_double(0)
         chk("fff_vector_ssd(free)", float(lib.fff_vector_ssd(vx, C.byref(mm), 0)), ((xf - xf.mean()) ** 2).sum())
         chk("fff_vector_ssd mean", mm.value, xf.mean())
+        # the same reductions against the programs assembled from the text of fff_vector.c (Gen/C16Kern.lean)
+        klines, kimpl = [], []
+        scq = max(1.0, float((xf ** 2).sum()), a * a * n)
+        klines.append(f"ksum {plist(xf.tolist())}"); kimpl.append(("rats", [float(lib.fff_vector_sum(vx))], scq))
+        mm = C.c_double(a)
+        klines.append(f"kssd {fr(a)} 1 {plist(xf.tolist())}")
+        kimpl.append(("rats", [float(lib.fff_vector_ssd(vx, C.byref(mm), 1)), mm.value], scq))
+        mm = C.c_double(0)
+        klines.append(f"kssd 0 0 {plist(xf.tolist())}")
+        kimpl.append(("rats", [float(lib.fff_vector_ssd(vx, C.byref(mm), 0)), mm.value], scq))
+        klines.append(f"ksad {fr(a)} {plist(xf.tolist())}"); kimpl.append(("rats", [float(lib.fff_vector_sad(vx, a))], scq))
         lib.fff_vector_delete(vx)
+        xm = np.array(xf, dtype=float)          # float64, contiguous: wrapped without a copy, permuted in place
+        vm = lib.fff_vector_fromPyArray(xm)
+        med = float(lib.fff_vector_median(vm)); lib.fff_vector_delete(vm)
+        klines.append(f"kmedian {plist(xf.tolist())}"); kimpl.append(("qlit", med, [float(t) for t in xm]))
+        if sorted(xm.tolist()) != sorted(xf.tolist()):
+            fails.append((None, f"fff_vector_median does not permute its buffer: {xf.tolist()} -> {xm.tolist()}"))
         for nm, w, args in (("median", np.median(xf), ()), ("quantile", np.percentile(xf, 25), (0.25, 1)),
                             ("quantile", np.percentile(xf, 75), (0.75, 1))):
             xc = np.array(x); vx = lib.fff_vector_fromPyArray(xc)
@@ -921,7 +1028,7 @@ class C16(PropertyCheck):
             other = [f for f in fails if f[0] is None]
             fail = (other or sorted(fails, key=lambda f: f[0]))[0][1]
         tags = ["vecops", "lx=" + c["lx"], "la=" + c["la"], f"and={len(sh)}"]
-        return self._res([], [], fail, n >= 2, tags, mut and "vecops:operand")
+        return self._res(klines, kimpl, fail, n >= 2, tags, mut and "vecops:operand")
 
     # ---- histogram -------------------------------------------------------------
     def _hist(self, c):
@@ -1065,8 +1172,14 @@ class C16(PropertyCheck):
                     break
             tags.append("resample3d")
         bx = [float(t) for t in np.round(rs.uniform(-2.5, 2.5, 5) * 16) / 16]
-        lines = [line, f"basis {fr(C23)} {plist(bx)}"]
-        impl = [("rats", vals, sc), ("rats", [lib.cubic_spline_basis(t) for t in bx], 1.0)]
+        bx += [float(t) for t in rs.choice([0.0, 1.0, -1.0, 2.0, -2.0, 0.5, -1.5, 1.9375, -0.0625], 3)]
+        bv = [lib.cubic_spline_basis(t) for t in bx]
+        lines = [line, f"basis {fr(C23)} {plist(bx)}", f"kbasis {plist(bx)}"]
+        impl = [("rats", vals, sc), ("rats", bv, 1.0), ("rats", bv, 1.0)]
+        if nd == 1:
+            # cubic_spline_sample1d assembled from the expressions regenerated from the C text
+            lines.append(f"ksample {modes[0]} {plist(coef.ravel().tolist())} {len(pts)} " + " ".join(fr(p[0]) for p in pts))
+            impl.append(("rats", vals, sc))
         # the prefilter in exact arithmetic: with the truncated constants of the C source (rationals) and with
         # the exact pole sqrt(3)-2 in Q(sqrt 3) (the model also decides exactly that the coefficients
         # reproduce the samples: flag 1)
@@ -1119,6 +1232,64 @@ class C16(PropertyCheck):
                     fail = fail or f"routines.combinations(k={k}, n={n}, m={m}, magic={magic}) column {i} = {Cb[:, i].tolist()} vs fff_combination {c2}"
                 lines.append(f"comb {k} {n} {magic + i}"); impl.append(("nats", c2))
         return self._res(lines, impl, fail, n >= 3, ["perm"])
+
+    def _permbig(self, c):
+        """the seed is an `unsigned long`: decoding against the mixed-radix / combinatorial-number-system definition in
+        exact integers over the whole 64-bit range; distinct seeds below n! (below C(n,k)) give distinct results"""
+        lib = fffpy()
+        n, cn, ck = c["n"], c["cn"], c["ck"]
+        fail = None
+        lines, impl = [], []
+        got = {}
+        for magic in c["magics"]:
+            if not 0 <= magic < (1 << 64):
+                continue
+            buf = (C.c_uint * n)()
+            lib.fff_permutation(buf, n, magic)
+            p = list(buf)
+            rest, m, want = list(range(n)), magic, []
+            for nc in range(n, 0, -1):          # factorial number system, least significant digit first
+                want.append(rest.pop(m % nc)); m //= nc
+            if p != want and fail is None:
+                fail = (f"fff_permutation(n={n}, magic={magic}) = {p}: the factorial-number-system decoding of the seed "
+                        f"(digits magic % n, (magic / n) % (n-1), ...) is {want}")
+            got[magic] = tuple(p)
+            lines.append(f"perm {n} {magic}"); impl.append(("nats", p))
+        inr = sorted(mg for mg in got if mg < math.factorial(n))
+        for a in inr:
+            for b in inr:
+                if a < b and got[a] == got[b] and fail is None:
+                    fail = (f"fff_permutation(n={n}): the distinct seeds {a} and {b} (both below n! = {math.factorial(n)}) "
+                            f"give the same permutation {list(got[a])}")
+        got, tot = {}, math.comb(cn, ck)
+        for magic in c["cmagics"]:
+            if not 0 <= magic < (1 << 64):
+                continue
+            buf = (C.c_uint * ck)()
+            lib.fff_combination(buf, ck, cn, magic)
+            cb = list(buf)
+            m, kk, nn, i, want = magic % tot, ck, cn, 0, []
+            while kk > 0:                       # combinatorial number system
+                nn -= 1
+                cc = math.comb(nn, kk - 1)
+                if m < cc:
+                    want.append(i); kk -= 1
+                else:
+                    m -= cc
+                i += 1
+            if cb != want and fail is None:
+                fail = (f"fff_combination(k={ck}, n={cn}, magic={magic}) = {cb}: the combination of rank magic mod C(n,k) "
+                        f"= {magic % tot} in the combinatorial number system is {want}")
+            got[magic] = tuple(cb)
+            lines.append(f"comb {ck} {cn} {magic}"); impl.append(("nats", cb))
+        inr = sorted(mg for mg in got if mg < tot)
+        for a in inr:
+            for b in inr:
+                if a < b and got[a] == got[b] and fail is None:
+                    fail = (f"fff_combination(k={ck}, n={cn}): the distinct seeds {a} and {b} (both below C(n,k) = {tot}) "
+                            f"give the same combination {list(got[a])}")
+        big = any(mg >= (1 << 32) for mg in c["magics"] + c["cmagics"])
+        return self._res(lines, impl, fail, n >= 3, ["perm-64bit"] + (["seed>=2^32"] if big else []))
 
     def _permall(self, c):
         """distinctness within the enumeration range: all n! magics, all C(n,k) magics"""
@@ -1312,6 +1483,8 @@ class C16(PropertyCheck):
                 if abs(v - m) > tol:
                     return f"coefficient {k}: impl={v!r} model={m!r}"
             return None
+        if kind in ("optrats", "optints", "kprng"):
+            return c16_kcases.compare(impl_obs, model_out, cmp_rats)
         if kind == "rats":
             sc = impl_obs[2] if len(impl_obs) > 2 else 1.0
             return cmp_rats(impl_obs[1], model_out, 1e-11, 1e-11 * sc)
@@ -1321,6 +1494,23 @@ class C16(PropertyCheck):
         k = case["kind"]
         if k == "views":
             yield from c16_views.shrink(case)
+            return
+        if k == "kern":
+            yield from c16_kcases.shrink(case)
+            return
+        if k == "permbig":
+            for key in ("magics", "cmagics"):
+                if len(case[key]) > 1:
+                    for i in range(len(case[key])):
+                        c = dict(case); c[key] = case[key][:i] + case[key][i + 1:]
+                        yield c
+            for key, lo in (("n", 1), ("cn", 2)):
+                if case[key] > lo:
+                    c = dict(case); c[key] = case[key] - 1; c["ck"] = min(c["ck"], c["cn"])
+                    yield c
+            if case["ck"] > 1:
+                c = dict(case); c["ck"] = case["ck"] - 1
+                yield c
             return
         if "shape" in case:
             sh = case["shape"]
